@@ -28,7 +28,8 @@ RULES = {
     "variants": "exhaustive: for every file and directory of the two fixed layouts and every decoy: the exact URL and 14 non-canonical, "
     "escaping and re-entering variants x Files/Pages x WSGI/ASGI (modes rotating); the layouts include look-alikes of the names the "
     "pages app adds (index.htm, Index.html, name.htm, name.HTML, index.html.bak), an empty file, a 10-level path, directories whose "
-    "names need escaping in a Location; the mount point itself ('/mnt' -> path '') for every combination; a dozen URLs through a "
+    "names need escaping in a Location, entries named like the mount prefix (directory mnt/ with mnt/mnt/..., file mnt, mnt.html: "
+    "every one through the Subpaths mount, through a server-owned root path and unmounted); the mount point itself ('/mnt' -> path '') for every combination; a dozen URLs through a "
     "server that owns the mount (SCRIPT_NAME / root_path) and omits every optional environ / scope key",
     "names": "exhaustive: a layout whose entries have hostile but legal names (upper case, blanks, backslash, colon, tilde, '$VAR', '+', "
     "glob and shell characters, control characters, NFC/NFD forms, non-BMP, trailing dots, 250-byte names), each as regular file, as "
@@ -132,6 +133,18 @@ LAYOUT_A = {
     "S/static/h4/index.html.bak": None,
     "S/static/deep/1/2/3/4/5/6/7/8/9/10/f.txt": None,
     "S/static/deep/1/2/3/4/5/6/7/8/9/10/index.html": None,
+    # entries named like the mount prefix ('/mnt'): through the mount the URL is '/mnt/mnt/...'; the prefix is taken off ONCE.
+    # A file only below mnt/, files and index pages at both levels (contents differ: they carry their path), one more level
+    "S/static/mnt/only.txt": None,
+    "S/static/mnt/file.txt": None,
+    "S/static/mnt/index.html": None,
+    "S/static/mnt/x.html": None,
+    "S/static/mnt/mnt/file.txt": None,
+    "S/static/mnt/mnt/index.html": None,
+    "S/static/mnt/mnt/only2.txt": None,
+    "S/static/mnt/mnt/mnt/deep.txt": None,
+    "S/static/mnt/dir/file.txt": None,
+    "S/static/mnt.html": None,
 }
 LAYOUT_B = {
     "secret.txt": "OUTER-SECRET",
@@ -149,6 +162,11 @@ LAYOUT_B = {
     # directories named like the files the pages app looks for
     "S/static/odd/index.html/inner.txt": None,
     "S/static/odd2.html/file.txt": None,
+    # a regular FILE named like the mount prefix, its '.html' neighbour, and the name further down
+    "S/static/mnt": None,
+    "S/static/mnt.html": None,
+    "S/static/dir/mnt/file.txt": None,
+    "S/static/dir/mnt/index.html": None,
 }
 
 # hostile but legal names (one path segment each, valid UTF-8, at most 250 bytes so that '<name>.html' still fits NAME_MAX)
@@ -178,6 +196,12 @@ def _layout_n():
         "S/static/sock": SOCKET,
         "S/static/dirs/sock2": SOCKET,
         "S/static/sock3.html": SOCKET,
+        "S/static/mnt/index.html": None,
+        "S/static/mnt/file.txt": None,
+        "S/static/mnt/a b.txt": None,
+        "S/static/mnt/mnt/file.txt": None,
+        "S/static/mnt/mnt/index.html": None,
+        "S/static/mnt.html": None,
     }
     for n in ODD_NAMES:
         lay["S/static/" + n] = None
@@ -562,7 +586,7 @@ SUBS = {"grid": oracle, "layouts": oracle}
 
 SEGMENTS = ["", ".", "..", "file.txt", "dir", "..name", ".hidden", "%2e%2e", "index.html", "x", "x.html", "y", "d2", "missing", "é.txt",
             "secret.txt", "static", "static2", "static.html", "staticfile", "SITE", "sub", "...", "100%", "a?b#c.txt", "other", "otherdir",
-            "v1.2", "Dir", "README.TXT", "d3"]
+            "v1.2", "Dir", "README.TXT", "d3", "mnt"]
 MODES = ["absolute", "relative", "package", "absolute", "relative-dot", "dotted-package", "absolute-slash", "pathlike", "absolute-unnormalised"]
 
 
@@ -624,6 +648,31 @@ DECOYS = ["../secret.txt", "../../secret.txt", "../static.html", "../static2/fil
           "../static2/index"]
 
 
+def mount_cases(layout, info, n0=0):
+    """Everything whose first segment is spelled like the mount prefix, on every kind x side, through the Subpaths mount, through a
+    server that owns the mount (SCRIPT_NAME / root_path '/mnt', path without it) and unmounted: the prefix is taken off exactly once."""
+    n = n0
+    paths = []
+    for rel in _entries(info):
+        if rel.split("/")[0] in ("mnt", "mnt.html"):
+            base = "/" + rel
+            paths += [base, base + "/"]
+            if base.endswith(".html"):
+                paths += [base[:-5], base[:-5] + "/"]
+    paths += ["/mnt/missing", "/mnt/mnt/missing", "/mnt/mnt/mnt/mnt", "/mnt/../mnt/file.txt", "/mnt//mnt/file.txt", "/mnt/mnt/../file.txt", "/mnt/secret.txt", "/mnt/../../secret.txt", "/mntx", "/mnt.txt"]
+    for path in paths:
+        for kind in ("files", "pages"):
+            for side in ("wsgi", "asgi"):
+                for present in ("subpaths", "server", "bare"):
+                    n += 1
+                    case = {"layout": layout, "kind": kind, "side": side, "mode": MODES[n % len(MODES)], "mounted": present != "bare", "path": path}
+                    if present == "server":
+                        case["minimal"] = True
+                    elif (n // 3) % 4 == 1:
+                        case["h404"] = True
+                    yield case
+
+
 def variant_cases():
     """For every file and directory of the fixed layouts (and every decoy): the exact URL and its
     non-canonical / escaping / re-entering variants."""
@@ -667,6 +716,7 @@ def variant_cases():
                             continue
                         n += 1
                         yield {"layout": layout, "kind": kind, "side": side, "mode": MODES[n % len(MODES)], "mounted": mounted, "path": path, "minimal": True}
+        yield from mount_cases(layout, info, n)
 
 
 # ---- names ---------------------------------------------------------------------------------
@@ -737,6 +787,7 @@ def names_cases(quick=True):
                 yield {"layout": LAYOUT_N, "kind": kind, "side": side, "mode": mode, "mounted": mounted, "path": path, "h404": (n // 8) % 4 == 3}
                 if not quick:
                     yield {"layout": LAYOUT_N, "kind": kind, "side": side, "mode": MODES[(n + 4) % len(MODES)], "mounted": not mounted, "path": path}
+    yield from mount_cases(LAYOUT_N, info, n)
 
 
 # ---- conditional ----------------------------------------------------------------------------
@@ -888,7 +939,7 @@ def oracle_sequence(case) -> Result:
 # ---- generated layouts ------------------------------------------------------------------------
 
 _names = st.sampled_from(["a", "b.txt", "index.html", "p.html", "p", "..x", ".h", "%2e%2e", "é", "d", "e", "secret.txt", "static2", "q.html", "...",
-                          "v1.2", "v1.2.html", "B.TXT", "a b", "a\\b", "D", "d.html"])
+                          "v1.2", "v1.2.html", "B.TXT", "a b", "a\\b", "D", "d.html", "mnt", "mnt", "mnt.html"])
 
 
 @st.composite
@@ -905,7 +956,7 @@ def layout_case(draw):
     keep = [r0 for r0 in rels if not any(o.startswith(r0 + "/") for o in rels)]
     for r0 in keep:
         layout["S/static/" + r0] = None
-    pool = sorted({s for r0 in keep for s in r0.split("/")}) + ["", ".", "..", "missing", "static", "static2", "secret.txt", "SITE"]
+    pool = sorted({s for r0 in keep for s in r0.split("/")}) + ["", ".", "..", "missing", "static", "static2", "secret.txt", "SITE", "mnt"]
     n = draw(st.integers(0, 4))
     path = "/" + "/".join(draw(st.sampled_from(pool)) for _ in range(n))
     if draw(st.booleans()) and not path.endswith("/"):
@@ -928,6 +979,8 @@ def layout_case(draw):
         case["headers"] = draw(st.sampled_from(VALIDATORS))
     elif extra == 2 and case["mounted"]:
         case["path"] = ""
+    elif extra == 3 and case["mounted"]:
+        case["minimal"] = True  # the mount is the server's (SCRIPT_NAME / root_path), optional keys left out
     return case
 
 
@@ -981,5 +1034,5 @@ def run(rec, only=None):
     core.drive_cases(rec, "sequence", sequence_cases(), oracle_sequence)
     rec.exhaustive["sequence"] = True
     _park_loop()  # (the thorough tier forks here as well)
-    core.drive_hypothesis(rec, "layouts", layout_case(), oracle_layouts, 600 if quick else 10000)
+    core.drive_hypothesis(rec, "layouts", layout_case(), oracle_layouts, 600 if quick else 60000)
     rec.exhaustive["layouts"] = False
